@@ -87,6 +87,34 @@ def main():
     eq(R.ipow([2j, -1], -1, 'complex128'), [-0.5j, -1])
     eq(R.ipow([-2, 3], 4, 'int8'), [16, 81], 'int8')
 
+    # --- divisors with zeros, IEEE quotient
+    eq(R.contents('float64', 5, mode='Z')[0], [-2, -0.0, 0, 1, 4], 'float64')
+    assert np.signbit(R.contents('float64', 5, mode='Z')[0][1])
+    q = R.div_ieee([1, -1, 0, 2, 3], [0.0, 0.0, 0.0, -0.0, 4.0], 'float32')
+    assert q.dtype == np.float32 and q[0] == np.inf and q[1] == -np.inf and np.isnan(q[2]) \
+        and q[3] == -np.inf and q[4] == 0.75
+    assert R.same_ieee([np.inf, np.nan, 1.0], [np.inf, np.nan, 1.0])
+    assert not R.same_ieee([np.inf, np.nan], [-np.inf, np.nan])
+    assert not R.same_ieee([7.0, np.nan], [np.inf, np.nan])
+    assert not R.same_ieee([complex(np.nan, 0)], [complex(np.nan, np.nan)])
+    assert R.first_diff_ieee([np.nan, 1.0, 7.0], [np.nan, 1.0, np.inf]) == 2
+    assert R.first_diff_ieee([np.nan, np.inf], [np.nan, np.inf]) is None
+
+    # --- overlapping operands: de Bruijn tiling
+    s = R.debruijn_pairs()
+    assert len(s) == 25 and len({(s[m], s[(m + 1) % 25]) for m in range(25)}) == 25
+    b = R.overlap_buffer((6,), 0, 'float64')
+    eq(b, [-2, -2, -0.5, -2, 0, -2])            # symbols 0 0 1 0 2 0
+    for shape, ax in (((101,), 0), ((11, 10), 0), ((10, 11), -1), ((3, 5, 10), 0),
+                      ((121,), 0), ((251, 200), 0)):
+        b = np.moveaxis(R.overlap_buffer(shape, ax, 'int64'), ax, 0)
+        assert len(set(zip(b[1:].ravel().tolist(), b[:-1].ravel().tolist()))) == 25, shape
+    pairs = set()
+    for ph in range(9):                          # size 3: ceil(25 / 3) phases
+        b = R.overlap_buffer((4,), 0, 'int64', ph)
+        pairs |= set(zip(b[1:].tolist(), b[:-1].tolist()))
+    assert len(pairs) == 25
+
     # --- helpers
     p = R.poison_fill('float32', 4)
     assert np.isnan(p[0]) and np.isnan(p[2]) and p[1] == p[3] > 1e37 and p.dtype == np.float32
